@@ -220,6 +220,25 @@ def check_short_window_decisions(P, R, rid):
         for tn in g.nodes:
             if tn.kind != 'test' or tn.ast is None:
                 continue
+            # `chunk.startswith(<K-byte constant>, pos)` is such a window, too
+            t_, neg_ = strip_not(tn.ast)
+            if isinstance(t_, ast.Call) and call_attr(t_) == 'startswith' and isinstance(t_.func.value, ast.Name) and t_.func.value.id == chunk_p and t_.args:
+                try:
+                    cv = T.ceval(m, t_.args[0])
+                except T.CannotEval:
+                    cv = None
+                if isinstance(cv, (bytes, str)) and len(cv) >= 2:
+                    n += 1
+                    len_tests = [t for t in g.nodes if t.kind == 'test' and t.ast is not None and any(
+                        isinstance(y, ast.Call) and dotted(y.func) == 'len' and y.args and src(y.args[0]) == chunk_p for y in ast.walk(t.ast))]
+                    succ = T.succ_by_label(tn, 'true' if neg_ else 'false')
+                    before = any(g.dominates(t, tn) for t in len_tests)
+                    bad = [] if before else [r for r in raises if any(s_ not in len_tests and (s_ is r or g.can_reach(s_, r, avoid_nodes=len_tests)) for s_ in succ)]
+                    R.ob(rid, m, t_, not bad, text=f'`{short(t_)}`: a {len(cv)}-byte window of the chunk; no rejection before its length is known', detail='' if not bad else
+                         f'`{short(t_)}` needs {len(cv)} bytes of the current chunk and `{short(bad[0].ast)}` is reached when it does not match, without any test of how many bytes '
+                         f'the chunk holds: when the chunk ends inside those {len(cv)} bytes (the first read delivers only the CR) a well-formed body is refused only because of '
+                         f'where the buffer boundary fell',
+                         why='every division of a well-formed body gives the same result as parsing it in one piece', key_extra='short-window')
             for x in ast.walk(tn.ast):
                 cp = compare_parts(x) if isinstance(x, ast.Compare) else None
                 if not (cp and cp[1] in (ast.Eq, ast.NotEq)):
@@ -770,6 +789,10 @@ def check(P, R):
 
     check_sentinels(P, R, 'C06.d')
     check_minus_one_sentinels(P, R, 'C06.d')
+    # under chunked framing the scanner is fed by the chunk decoder: the decoder's own tolerance of short reads (the two bytes behind a chunk) is a premise
+    from ..report import run_premise
+    from . import c05 as _c05
+    run_premise(R, _c05, P, {'C05.f'}, 'C06.f', 'an upload never fails because of where a read boundary happened to fall - also between the CR and LF behind a chunk')
     nw_ = check_short_window_decisions(P, R, 'C06.d')
     check_bytes_vs_int(P, R, 'C06.d')
     check_eater_reset(P, R, 'C06.e')
